@@ -55,9 +55,13 @@ static std::string diff_field(const Table& t, const Model& m) {
 static Perm compose(const Perm& a, const Perm& g) { Perm r(a.size()); for (size_t i = 0; i < a.size(); i++) r[i] = a[g[i]]; return r; }   // apply g after a
 static Perm inverse(const Perm& p) { Perm r(p.size()); for (size_t i = 0; i < p.size(); i++) r[p[i]] = i; return r; }
 
+// shape 0: pairwise different coefficient counts (every relocation changes the strides); shape 1: the same count in every dimension;
+// shape 2: counts alternating 5,7,5,7 - there a permutation can leave the SHAPE of the coefficient array unchanged although the
+// contents have to move (orders, knots, extents and periods still differ between the dimensions)
+static int g_shape = 0;
 static tg::TableSpec base_spec(int n, long seed) {
   tg::TableSpec s;
-  for (int i = 0; i < n; i++) { uint32_t o = (uint32_t)((i * 2 + 1) % 4); s.dims.push_back({o, tg::make_knots(i % 2 ? tg::K_IRREGULAR : tg::K_UNIFORM, o, 2 * o + 2 + (n <= 5 ? i + 1 : (i % 3)), 0.75 * i)}); s.extents.push_back(s.dims[i].knots.front() - 0.5 - i); s.extents.push_back(s.dims[i].knots.back() + 0.25 * (i + 1)); s.periods.push_back(10.0 * (i + 1)); }
+  for (int i = 0; i < n; i++) { uint32_t o = (uint32_t)((i * 2 + 1) % 4); uint64_t nk = g_shape == 0 ? 2 * o + 2 + (n <= 5 ? i + 1 : (i % 3)) : (g_shape == 1 ? (n <= 4 ? 6 : 4) : (n <= 4 ? (i % 2 ? 7 : 5) : (i % 2 ? 5 : 4))) + o + 1; s.dims.push_back({o, tg::make_knots(i % 2 ? tg::K_IRREGULAR : tg::K_UNIFORM, o, nk, 0.75 * i)}); s.extents.push_back(s.dims[i].knots.front() - 0.5 - i); s.extents.push_back(s.dims[i].knots.back() + 0.25 * (i + 1)); s.periods.push_back(10.0 * (i + 1)); }
   s.coeffs = tg::make_coeffs(1, s.ncoeffs(), seed, n);
   return s;
 }
@@ -132,10 +136,10 @@ int main(int argc, char** argv) {
   H = &h;
   h.meta("level", "model_checking");
   h.meta("rule", "breadth-first search of the whole permutation group as a state graph on the real object: states = canonical form of the table (orders, knot vectors, coefficient counts, strides, extents, periods, coefficient array), transitions = permuteDimensions with every adjacent transposition, the n-cycle and its inverse (every third through the C wrapper), searched to the fixpoint (all n! states, n=1..5, n=6 in thorough); from every state additionally every permutation applied directly (n<=4) and six malformed arguments; each transition rebuilds the state by replaying its shortest path on a fresh table, applies the operation, and compares with a reference model that permutes a plain record by independent index arithmetic, with evaluation at correspondingly permuted points, with the inverse permutation, and with the canonical form recorded for the same group element on other routes");
-  h.meta("assumption", "tables with pairwise different orders, axis lengths, extents and periods; coefficient values seeded");
+  h.meta("assumption", "tables with pairwise different orders, extents and periods; coefficient counts pairwise different, all equal, or alternating (so that some permutations leave the shape of the coefficient array unchanged); coefficient values seeded");
   h.meta("require_states", "100");
   h.timeout_s = 600;
   int nmax = h.thorough ? 6 : 5;
-  h.add_space("groups", nmax, [](uint64_t i) { explore((int)i + 1); });
+  h.add_space("groups", 3 * nmax, [nmax](uint64_t i) { g_shape = (int)(i / nmax); explore((int)(i % nmax) + 1); });
   return h.main();
 }
